@@ -5,3 +5,12 @@ import LibfiveTheorems.C14
 #print axioms Libfive.C14.deleter_is_observer
 #print axioms Libfive.C14.no_use_after_free_conc
 #print axioms Libfive.C14.statics_all_classified
+#print axioms Libfive.C14.interleaving_confluent
+#print axioms Libfive.C14.interleaving_confluent_heap
+#print axioms Libfive.C14.interleaving_confluent_seq
+#print axioms Libfive.C14.no_use_after_free_prog
+#print axioms Libfive.C14.fault_free_prog
+#print axioms Libfive.C14.quiescent_heap
+#print axioms Libfive.C14.init_wellformed
+#print axioms Libfive.C14.prog_refines_acceptor
+#print axioms Libfive.C14.prog_unique_deleter
